@@ -12,13 +12,15 @@
 \*     it; otherwise it succeeds.  Hence never two providers are responsible for the same key.
 \*     (The documentation is silent on the empty key: accepting or refusing it are both allowed.)
 \*  R2 injection: InjectAsDatabase succeeds once, every later call fails with ErrInjected; before it every
-\*     database operation on the name fails and pushed updates are dropped.
+\*     database operation on the name fails, pushed updates are dropped and DatabaseName() is empty,
+\*     afterwards it is the name.  GetRegistrationKeys() is the set of keys registered successfully.
 \*  R3 Get(key) is answered by the one responsible provider and by no other: the record it holds under
 \*     exactly that key (carrying that key), else ErrNotFound; no responsible provider: ErrNotFound; a
 \*     write-only provider (ErrWriteOnly) is hidden as ErrNotFound; any other provider error is returned.
 \*     Nothing is cached: a Get always shows the provider's current value.
 \*  R4 Put(record) reaches the Set of the one responsible provider exactly once and of no other; without
-\*     a responsible provider it fails with ErrKeyUnmanaged; a read-only provider (ProvideRecord,
+\*     a responsible provider it fails (ErrKeyUnmanaged by the documentation of that error, ErrReadOnly by
+\*     the comment of Registry.Put: both are allowed) and reaches no provider; a read-only provider (ProvideRecord,
 \*     SimpleValueGetterFunc, ModulesIntegration) yields ErrReadOnly; a provider error is returned and
 \*     nobody is notified; after a successful Put every subscription whose query matches the key receives
 \*     the record exactly once.
@@ -110,7 +112,8 @@ Step(st, o) ==
     [] o.op = "get" -> {Out(GetRes(st, o.k), st)}
     [] o.op = "put" ->
          IF ~st.inj THEN {Out(Plain(st, "anyerr"), st)}
-         ELSE IF Route(st, o.k) = {} THEN {Out(Plain(st, "unmanaged"), st)}
+         \* ErrKeyUnmanaged says it is returned by such a Put, the comment of Registry.Put says ErrReadOnly
+         ELSE IF Route(st, o.k) = {} THEN {Out(Plain(st, "unmanaged"), st), Out(Plain(st, "readonly"), st)}
          ELSE LET p == CHOOSE q \in Route(st, o.k) : TRUE
                   kind == KindOf(st, p)
               IN CASE kind = "fail" -> {Out(Plain(st, "boom"), st)}
